@@ -45,14 +45,26 @@ SCENARIOS = [
     ('runtime-error-record-2', 'select int(a2) * len(a3), [1][len(a3) - 3]', False),
     ('aggregate-misuse', 'select a1, COUNT(*) order by a1', False),
     ('double-unnest', 'select UNNEST([1, 2]), UNNEST([3])', False),
+    # the same query TEXT over tables whose headers put the named columns at different positions (a per-text memo of the
+    # translated query would silently run the code generated for the other header)
+    ('named-columns-header-1', 'select a.v, a["k"], NR where a.w != "z"', False, ['k', 'v', 'w']),
+    ('named-columns-header-2', 'select a.v, a["k"], NR where a.w != "z"', False, ['v', 'w', 'k']),
+    ('named-update-except-header-1', 'update a.v = a.k + "!"', False, ['k', 'v', 'w']),
+    ('named-update-except-header-2', 'update a.v = a.k + "!"', False, ['w', 'k', 'v']),
 ]
 
 
 def observe(ns, idx, R, on_step=None, who='', count_steps=None):
-    name, qtext, uses_join = SCENARIOS[idx]
+    sc = SCENARIOS[idx]
+    name, qtext, uses_join = sc[0], sc[1], sc[2]
+    a_names = sc[3] if len(sc) > 3 else None
+    A = table(R)
+    if a_names is not None:
+        # logical columns k, v, w are the physical columns 0, 1, 2; the header order says where each one sits
+        A = [[r['kvw'.index(c)] for c in a_names] for r in A]
     if count_steps is not None:
         on_step = lambda w, op: count_steps.append(op)
-    o = boundary.run_py(ns, qtext, table(R), join_table() if uses_join else None, None, None, on_step=on_step, who=who, scribble=False)
+    o = boundary.run_py(ns, qtext, A, join_table() if uses_join else None, a_names, None, on_step=on_step, who=who, scribble=False)
     return {'rows': json.loads(json.dumps(o.rows)), 'header': o.header, 'warnings': o.warnings, 'error': o.error, 'error_records': util.record_numbers(o.error_msg or '')[:2]}
 
 
@@ -275,7 +287,7 @@ def run_shard(spec, res):
 
 def summarize(tier, seed, m):
     return {
-        'rule': '%d scenarios (plain select, like, UNNEST, ORDER BY, DISTINCT COUNT, GROUP BY with all nine aggregates, JOIN, UPDATE with NU, TOP, syntax error, parsing error, runtime error at record 2, aggregate misuse, double UNNEST); solo results from one fresh interpreter per scenario; history: every sequence of length <= 2 plus random sequences of length 3..6 in one process; interleaving: every unordered pair of scenarios (incl. a scenario with itself) in two real threads under the cooperative scheduler, ALL interleavings of the get_record / write / finish steps enumerated by stateless DFS (%s); preemption stress with sys.monitoring LINE yield injection. distinct_nontrivial = distinct step traces realised + distinct history sequences.' % (
+        'rule': '%d scenarios (plain select, like, UNNEST, ORDER BY, DISTINCT COUNT, GROUP BY with all nine aggregates, JOIN, UPDATE with NU, TOP, syntax error, parsing error, runtime error at record 2, aggregate misuse, double UNNEST, and two pairs of identical query texts over differently ordered headers); solo results from one fresh interpreter per scenario; history: every sequence of length <= 2 plus random sequences of length 3..6 in one process; interleaving: every unordered pair of scenarios (incl. a scenario with itself) in two real threads under the cooperative scheduler, ALL interleavings of the get_record / write / finish steps enumerated by stateless DFS (%s); preemption stress with sys.monitoring LINE yield injection. distinct_nontrivial = distinct step traces realised + distinct history sequences.' % (
             len(SCENARIOS), '2-record tables' if tier == 'quick' else '2- and 3-record tables for all pairs (3-record pairs capped at 20000 schedules), 4-record tables for 6 selected pairs'),
         'exhaustive': m['counters'].get('pairs_truncated', 0) == 0,
         'required': ['schedules', 'pairs_enumerated_completely', 'handoffs', 'history_runs', 'preemption_runs', 'line_events_in_main_loop', 'injected_yields'],
